@@ -67,11 +67,18 @@ def run(ctx):
 
 
 def r_str(ctx):
+    """str(s) folds  re := concat(char(c), re)  over the characters of s from the last to the first, starting from
+    epsilon.  The accessors of SmtString (iter / char / len) are interpreted, so a reversed iterator, `rev().fold` and a
+    descending index loop all read elements of the field s; the cursor is the loop-carried variable that starts at the
+    length and goes down by one, the character of an iteration is s[cursor - 1]."""
+    acc_ = lambda q: q.endswith('SmtString::iter') or q.endswith('SmtString::char') or q.endswith('SmtString::len')
+    SEQ = ('fld', A(1), 's')
     for cfg in ('dev', 'rel'):
-        log = calllog.run(ctx, cfg, RM + 'str')
+        log = calllog.run(ctx, cfg, RM + 'str', uninterpreted=lambda q: not acc_(q))
         ip, fn = log.ip, log.fn
         okn = len(log.iterations) >= 1
         accs = set()
+        cursors = set()
         for it in log.iterations:
             ch = it.named('ReManager::char')
             cc = it.named('ReManager::concat')
@@ -79,17 +86,26 @@ def r_str(ctx):
             accs.add(acc)
             ok = len(it.calls) == 2 and len(ch) == 1 and len(cc) == 1 and acc is not None
             if ok:
-                ok = (item_ok(ip, it, ch[0][1][1], lambda s: s == ('items', ('call', 'smt_strings::SmtString::iter', (A(1),)))) and
-                      cc[0][1][1] == calllog.call_term(ch[0]) and cc[0][1][2] == acc and it.cur.get(acc) == calllog.call_term(cc[0]) and
-                      acc0 == ('call', RM + 'epsilon', (A(0),)) and any(hv[0] == 'var' and '.end@' in hv[1] for hv, ev in it.mapping))
+                x = ch[0][1][1]
+                ok = x[0] == 'elem' and x[1] == SEQ
+            if ok:
+                # the cursor: starts at the length of s, goes down by one, and the character read is the one below it
+                cur_ = [hv for hv, ev in it.mapping if ev == T.typed(('len', SEQ), 'usize') and
+                        (it.cur.get(hv) == T.mk_sub(hv, I(1)) or ip.entails(it.state, eq(it.cur.get(hv, hv), T.mk_sub(hv, I(1))))) and
+                        (x[2] == T.mk_sub(hv, I(1)) or ip.entails(it.state, eq(x[2], T.mk_sub(hv, I(1)))))]
+                cursors |= set(cur_)
+                ok = (len(cur_) >= 1 and cc[0][1][1] == calllog.call_term(ch[0]) and cc[0][1][2] == acc and it.cur.get(acc) == calllog.call_term(cc[0]) and
+                      acc0 == ('call', RM + 'epsilon', (A(0),)))
             okn = okn and ok
-            verdict(ctx, ok, 'str/step-prepends-the-character-before-the-suffix-built-so-far', fn, {'calls': calls_txt(it.calls)}, cfg)
+            verdict(ctx, ok, 'str/step-prepends-the-character-before-the-suffix-built-so-far', fn, {'calls': calls_txt(it.calls), 'mapping': [(T.show(a), T.show(b)[:60]) for a, b in it.mapping]}, cfg)
         verdict(ctx, okn, 'str/loop-found', fn, None, cfg)
         for o in log.outs:
             if o.kind != 'ret':
                 continue
             t = ip.to_term(o.state, o.value)
-            ok = t in accs and t is not None and loop_exhausted(ip, o.state)
+            # all characters were taken: the loop stopped by its own test with the cursor at 0 (or the iterator empty)
+            done = loop_exhausted(ip, o.state) and all(ip.entails(o.state, le(c_, I(0))) or any('.pos@' in h[1] and ip.entails(o.state, le(c_, h)) for h in head_vars(o.state)) for c_ in cursors if c_ in head_vars(o.state))
+            ok = t in accs and t is not None and done
             verdict(ctx, ok, 'str/returns-accumulator-after-all-characters', fn, {'returned': T.show(t)[:120], 'leaf_constraints': pc_text(o)}, cfg)
 
 
